@@ -1,4 +1,5 @@
 #!/bin/bash
+mkdir -p /tmp/seed   # lock files of the helper scripts live here (not used by any registered command)
 # seedcheck.sh <patch.diff> <Cxx> [Cyy ...] — apply a seeded change to /repo, run the named quick checks, undo it.
 # Prints one line per check: <id> exit=<code> <first VIOLATION / KNOWN line>
 PATCH=$(readlink -f "$1"); shift
